@@ -130,6 +130,22 @@ def slot0_spec(it):
             "resources": [{"id": "r1"}], "tasks": tasks}
 
 
+def dupids(tier):
+    """leaf tasks with the SAME local id under different containers sharing slots of one resource"""
+    import itertools as _it
+    for L in (60, 30):
+        for alap in (False, True):
+            for ef in _it.product((20, 40, 50, 90), repeat=3):
+                yield {"kind": "dupid", "L": L, "alap": alap, "ef": ef}
+
+
+def dupid_spec(it):
+    e = it["ef"]
+    leaf = lambda i, m: {"id": i, "effort": m, "alloc": ["r1"]}  # noqa: E731
+    return {"res_min": it["L"] if it["L"] != 60 else None, "alap": it["alap"], "resources": [{"id": "r1"}],
+            "tasks": [{"id": "phase1", "children": [leaf("impl", e[0])]}, {"id": "phase2", "children": [leaf("impl", e[1])]}, leaf("wrap", e[2])]}
+
+
 def frac_spec(it):
     tasks = [{"id": "abc"[i], "effort": m, "alloc": ["r1"], "prio": 900 - i} for i, m in enumerate(it["ef"])]
     return {"dur": "1w", "res_min": it["L"], "alap": it["alap"], "resources": [{"id": "r1"}], "tasks": tasks}
@@ -140,6 +156,8 @@ def to_spec(item):
         return frac_spec(item)
     if item["kind"] == "slot0":
         return slot0_spec(item)
+    if item["kind"] == "dupid":
+        return dupid_spec(item)
     if item["kind"] == "tb":
         from mc.props import c03
         return c03.tb_spec(item)
@@ -191,6 +209,7 @@ def run(ctx):
     from mc.props import c03
     explore(ctx, c03.team_blockers(ctx.tier), "mc.props.c01:evaluate", st, payload=payload, sample_of=sample)
     explore(ctx, slot0(ctx.tier), "mc.props.c01:evaluate", st, payload=payload, sample_of=sample)
+    explore(ctx, dupids(ctx.tier), "mc.props.c01:evaluate", st, payload=payload, sample_of=sample)
     for mode in ("rebuilt", "blocked"):
         explore(ctx, [it for it in fracres(ctx.tier) if it["mode"] == mode], "mc.props.c01:evaluate", st, mode=mode, payload=payload, sample_of=sample)
     from mc.props import wide
